@@ -1197,6 +1197,206 @@ func (p *Program) c18CollectorReportsAbsent(fn *ssa.Function) (problems []string
 }
 
 // ---------------------------------------------------------------------------------------------
+// The condition handed to meta.SetStatusCondition, whatever way it was built
+
+// c18FieldAlt is one value a field of a struct value may hold at the place the struct is used.
+type c18FieldAlt struct {
+	Val  ssa.Value // nil with Zero
+	Zero bool      // the field holds its zero value
+}
+
+func c18FieldIndex(t types.Type, name string) int {
+	if pt, ok := t.Underlying().(*types.Pointer); ok {
+		t = pt.Elem()
+	}
+	st, ok := t.Underlying().(*types.Struct)
+	if !ok {
+		return -1
+	}
+	for i := 0; i < st.NumFields(); i++ {
+		if st.Field(i).Name() == name {
+			return i
+		}
+	}
+	return -1
+}
+
+// c18StructFieldAlts resolves the values field `name` of the struct value v may hold. v is a
+// composite literal or a local filled by field assignments (flow-sensitive: fieldDefsAt at the load),
+// the result of a statically called function with a body (every return of it; a parameter of the
+// function is bound to the argument of this call), a merge of those, or the zero struct. ok is false
+// for every other shape: the caller must then treat the field as unknown.
+func (p *Program) c18StructFieldAlts(v ssa.Value, name string, depth int) ([]c18FieldAlt, bool) {
+	if v == nil || depth > 4 {
+		return nil, false
+	}
+	switch x := stripConv(v).(type) {
+	case *ssa.Const:
+		if _, isStruct := x.Type().Underlying().(*types.Struct); isStruct && x.Value == nil {
+			return []c18FieldAlt{{Zero: true}}, true
+		}
+		return nil, false
+	case *ssa.UnOp:
+		if x.Op != token.MUL {
+			return nil, false
+		}
+		a, isA := x.X.(*ssa.Alloc)
+		if !isA {
+			return nil, false
+		}
+		idx := c18FieldIndex(a.Type(), name)
+		if idx < 0 {
+			return nil, false
+		}
+		defs, ok := p.fieldDefsAt(a, idx, x, nil)
+		if !ok {
+			// the variable's address is handed out: the flow-insensitive view of a literal
+			f, _, isLit := compositeFields(x)
+			if !isLit || a.Comment != "complit" {
+				return nil, false
+			}
+			if _, dup := f[name+"#dup"]; dup {
+				return nil, false
+			}
+			if f[name] == nil {
+				return []c18FieldAlt{{Zero: true}}, true
+			}
+			return []c18FieldAlt{{Val: f[name]}}, true
+		}
+		var out []c18FieldAlt
+		for _, d := range defs {
+			switch {
+			case d.Whole != nil:
+				sub, ok := p.c18StructFieldAlts(d.Whole, name, depth+1)
+				if !ok {
+					return nil, false
+				}
+				out = append(out, sub...)
+			case d.Val != nil:
+				out = append(out, c18FieldAlt{Val: d.Val})
+			default:
+				out = append(out, c18FieldAlt{Zero: true})
+			}
+		}
+		return out, len(out) > 0
+	case *ssa.Phi:
+		var out []c18FieldAlt
+		for _, e := range x.Edges {
+			sub, ok := p.c18StructFieldAlts(e, name, depth+1)
+			if !ok {
+				return nil, false
+			}
+			out = append(out, sub...)
+		}
+		return out, len(out) > 0
+	case *ssa.Call:
+		return p.c18ResultFieldAlts(x, 0, 1, name, depth)
+	case *ssa.Extract:
+		if call, isCall := x.Tuple.(*ssa.Call); isCall {
+			return p.c18ResultFieldAlts(call, x.Index, -1, name, depth)
+		}
+	}
+	return nil, false
+}
+
+// c18ResultFieldAlts: field `name` of result #idx of a static call, per return of the callee.
+func (p *Program) c18ResultFieldAlts(call *ssa.Call, idx, wantResults int, name string, depth int) ([]c18FieldAlt, bool) {
+	h := staticCallee(call.Common())
+	if h == nil || len(h.Blocks) == 0 || h.Signature.Results().Len() <= idx {
+		return nil, false
+	}
+	if wantResults >= 0 && h.Signature.Results().Len() != wantResults {
+		return nil, false
+	}
+	var out []c18FieldAlt
+	for _, b := range h.Blocks {
+		for _, in := range b.Instrs {
+			switch r := in.(type) {
+			case *ssa.Defer:
+				return nil, false // a deferred function may still change a named result
+			case *ssa.Return:
+				if len(r.Results) <= idx {
+					return nil, false
+				}
+				sub, ok := p.c18StructFieldAlts(r.Results[idx], name, depth+1)
+				if !ok {
+					return nil, false
+				}
+				for _, alt := range sub {
+					if alt.Val != nil {
+						if prm, isPrm := stripConv(alt.Val).(*ssa.Parameter); isPrm && prm.Parent() == h {
+							i := paramIndex(h, prm)
+							if i < 0 || i >= len(call.Common().Args) {
+								return nil, false
+							}
+							alt.Val = call.Common().Args[i]
+						}
+					}
+					out = append(out, alt)
+				}
+			}
+		}
+	}
+	return out, len(out) > 0
+}
+
+// c18CondSet is one meta.SetStatusCondition call with what is known of the condition it sets.
+type c18CondSet struct {
+	Call     Call
+	Types    []c18FieldAlt // possible values of .Type; nil when the condition's construction is not understood
+	Statuses []c18FieldAlt // likewise
+	Reasons  []c18FieldAlt
+}
+
+func (p *Program) c18ConditionSets(fn *ssa.Function) []c18CondSet {
+	var out []c18CondSet
+	for _, c := range callsIn(fn) {
+		if !isCallTo(c.Common, pkgMeta+".SetStatusCondition") || len(c.Common.Args) != 2 {
+			continue
+		}
+		cs := c18CondSet{Call: c}
+		cs.Types, _ = p.c18StructFieldAlts(c.Common.Args[1], "Type", 0)
+		cs.Statuses, _ = p.c18StructFieldAlts(c.Common.Args[1], "Status", 0)
+		cs.Reasons, _ = p.c18StructFieldAlts(c.Common.Args[1], "Reason", 0)
+		out = append(out, cs)
+	}
+	return out
+}
+
+// c18AltsConst: every alternative is the same string constant.
+func c18AltsConst(alts []c18FieldAlt) (string, bool) {
+	val, have := "", false
+	for _, a := range alts {
+		if a.Zero || a.Val == nil {
+			return "", false
+		}
+		s, ok := constString(a.Val)
+		if !ok || (have && s != val) {
+			return "", false
+		}
+		val, have = s, true
+	}
+	return val, have
+}
+
+func (p *Program) c18DescribeAlts(alts []c18FieldAlt) string {
+	var parts []string
+	for _, a := range alts {
+		switch {
+		case a.Zero || a.Val == nil:
+			parts = append(parts, "<zero value>")
+		default:
+			if s, ok := constString(a.Val); ok {
+				parts = append(parts, s)
+			} else {
+				parts = append(parts, p.describe(a.Val))
+			}
+		}
+	}
+	return strings.Join(uniqStrings(parts), " | ")
+}
+
+// ---------------------------------------------------------------------------------------------
 // R4
 
 func c18r4(c *Ctx) {
@@ -1281,8 +1481,17 @@ func c18r4(c *Ctx) {
 		return v
 	}
 	for _, sfn := range p.FuncsIn(pkgObjTemplate) {
-		for _, cs := range conditionSets(sfn) {
-			if cs.Type != invalid {
+		for _, cs := range p.c18ConditionSets(sfn) {
+			// an instance is a condition that is, or on some way may be, the Invalid condition
+			mayBeInvalid, onlyInvalid := false, true
+			for _, t := range cs.Types {
+				if s, isConst := constString(t.Val); t.Val != nil && isConst && s == invalid {
+					mayBeInvalid = true
+				} else {
+					onlyInvalid = false
+				}
+			}
+			if !mayBeInvalid {
 				continue
 			}
 			ctxs, guarded := contextsOf(sfn, cs.Call.Instr, nil, 0)
@@ -1292,14 +1501,28 @@ func c18r4(c *Ctx) {
 			for _, ic := range ctxs {
 				fn := ic.fn
 				mapper = fn
-				reason := cs.Reason
-				if reason == "" && cs.Fields != nil {
-					reason, _ = constString(resolveUp(cs.Fields["Reason"], ic.chain))
+				// the reason names the obligation when every way of building the condition gives the same constant
+				reason := ""
+				for i, r := range cs.Reasons {
+					s, isConst := "", false
+					if r.Val != nil {
+						s, isConst = constString(resolveUp(r.Val, ic.chain))
+					}
+					if !isConst || (i > 0 && s != reason) {
+						reason = ""
+						break
+					}
+					reason = s
 				}
 				o := c.Ob(fn, "Invalid-"+reason, ic.site, "Invalid=True is set under errors.As(err, **SourceError / **TemplateError) and the mapper then returns nil so that the status is persisted")
 				var problems []string
-				if cs.Status != "True" {
-					problems = append(problems, "status is "+cs.Status)
+				if !onlyInvalid {
+					problems = append(problems, "the condition's type is not Invalid on every way: "+p.c18DescribeAlts(cs.Types))
+				}
+				if cs.Statuses == nil {
+					problems = append(problems, "the status of the condition cannot be determined")
+				} else if st, isConst := c18AltsConst(cs.Statuses); !isConst || st != "True" {
+					problems = append(problems, "status is "+p.c18DescribeAlts(cs.Statuses))
 				}
 				which, ok := asGuard(p.FactsAt(ic.site.Block()))
 				if !ok {
